@@ -3,7 +3,7 @@
 Only `import xlcalculator` is used (never a function module: importing one
 registers its functions as a side effect and would hide registration bugs).
 """
-from .norm import norm, exc_tag, root_exc, lib
+from .norm import norm, exc_tag, root_exc, lib, fresh_library  # noqa: F401
 
 PROBE = 'Sheet1!ZZ1'
 
